@@ -1,11 +1,54 @@
-/- Spec-driver operations of cluster A (see Driver/Main.lean). Imports Spec/* only — never Gen or Model. -/
+/- Spec-driver operations of cluster A (C01 parsing, C02 export, zone-file lines of C09). Imports Spec/* only. -/
 import PdbVerif.Driver.Json
+import PdbVerif.Spec.C01
+import PdbVerif.Spec.C02
 
 namespace Driver.SpecA
-open Lean Driver
+open Lean Driver Py
+
+def valJ : Val → Json
+  | .int i => .arr #[.str "i", intJ i]
+  | .real r => .arr #[.str "r", ratJ r]
+  | .text s => .arr #[.str "t", strJ s]
+
+def rowJ (r : Row) : Json := .arr (r.map valJ).toArray
+def rowsJ (rs : List Row) : Json := .arr (rs.map rowJ).toArray
 
 def op (name : String) (j : Json) : Except String (Option Json) := do
   match name with
+  | "parse" =>
+    -- the abstract text: its records (lines without the newline)
+    let recs ← (← jArr j "records").toList.mapM fun x => do let s ← asStr x; pure s.toList
+    match j.getObjVal? "accepted" with
+    | .ok (.bool false) => pure (some (.str "ERR:FileNotFoundError"))
+    | _ => pure (some (exceptJ rowsJ (Spec.parse recs)))
+  | "format" =>
+    let a ← atomOfJson (← jVal j "row")
+    -- what the implementation wrote for this row (a line, or the exception it raised)
+    let line ← jStr j "impl_line"
+    let inRange (x : Rat) : Bool := decide (-(19999999 : Rat) / 2 < x ∧ x < (199999999 : Rat) / 2)
+    if !(inRange a.x && inRange a.y && inRange a.z) then
+      -- a coordinate that cannot fit must raise instead of overflowing
+      pure (some (Json.mkObj [("must_raise", .bool true)]))
+    else
+      pure (some (Json.mkObj [("must_raise", .bool false),
+        ("failures", .arr ((Spec.lineFailures a line.toList).map Json.str).toArray)]))
+  | "format_xyz" =>
+    let x ← jRat j "x"
+    let field ← jStr j "impl_field"
+    let inRange : Bool := decide (-(19999999 : Rat) / 2 < x ∧ x < (199999999 : Rat) / 2)
+    pure (some (Json.mkObj [("must_raise", .bool (!inRange)), ("ok", .bool (Spec.coordOK x field.toList)),
+      ("needed", match Spec.neededDecimals x with | some k => intJ k | none => .null)]))
+  | "roundtrip" =>
+    let a ← atomOfJson (← jVal j "row")
+    let b ← atomOfJson (← jVal j "impl_row")
+    let ks ← jArr j "ks"
+    let k (i : Nat) : Except String Nat := do let v ← asInt ks[i]!; pure v.toNat
+    pure (some (.bool (Spec.readBackOK a b (← k 0) (← k 1) (← k 2))))
+  | "zone" =>
+    -- a zone written for (chain, num) must be read back as (chain, num)
+    let chain ← jStr j "chain"; let num ← jInt j "num"
+    pure (some (Json.mkObj [("chain", .str chain), ("num", intJ num)]))
   | _ => pure none
 
 end Driver.SpecA
